@@ -476,7 +476,12 @@ class OrderInterp:
                     desc = " desc?"
                 return Tag("sorted", rt.base or rtxt, key.strip("'\"[]") + desc, rt.col)
             if name == "groupby":
-                return Tag("grouped", rt.base, self.txt(e.args[0]) if e.args else self.txt(kw.get("level", ast.Constant(value="?"))))
+                gk = self.txt(e.args[0]) if e.args else self.txt(kw.get("level", ast.Constant(value="?")))
+                if "sort" in kw and self.txt(kw["sort"]) == "False":
+                    # groups come in order of first appearance: deterministic only if the frame is sorted by the group key
+                    self.site("reduction", f"groupby({gk.strip(chr(39) + chr(34))}, sort=False)", e, [recv])
+                    return Tag("rows", rt.base or rtxt)
+                return Tag("grouped", rt.base, gk)
             if name in ("first", "last", "nth", "head", "tail") and self._is_groupby(recv):
                 self.site("reduction", f"groupby().{name}()", e, [recv.func.value])
                 return Tag("grouped", rt.base, rt.key)
